@@ -345,7 +345,8 @@ def generate(rng, tier):
                   "zoom": rng.choice([0.5, 1.5, 2, 2.0, [1.5, 0.75]])}
         else:
             g = rng.choice(pool)
-            op = {"op": "poison", "kind": rng.choice(["list_samples", "int_fracshift", "bad_Q"]),
+            op = {"op": "poison", "kind": rng.choice(["list_samples", "int_fracshift", "bad_Q", "uint8_samples", "uint8_samples",
+                                                     "f32_Q"]),
                   "g": g, "seed": rng.getrandbits(32)}
         ops.append(op)
         if kind in JUDGED:
@@ -615,6 +616,21 @@ def _poison(np, ft, op):
             ft.czt.czt2(rs.integers(0, 5, (m, n)), Q, out, shift=(0.37, -1.21))
         elif k == "bad_Q":
             ft.mdft.dft2(rs.standard_normal((m, n)), "2", out)
+        elif k == "uint8_samples":
+            # sample counts as small unsigned numpy integers (their arithmetic wraps): whatever this call
+            # returns, it must not leave anything behind for the same geometry given as plain integers
+            shift = tuple(g["shift"])
+            for fn in (ft.czt.czt2, ft.czt.iczt2, ft.mdft.dft2, ft.mdft.idft2):
+                try:
+                    fn(rs.standard_normal((m, n)), Q, (np.uint8(out[0]), np.uint8(out[1])), shift=shift)
+                except Exception:
+                    pass
+        elif k == "f32_Q":
+            for fn in (ft.czt.czt2, ft.mdft.dft2):
+                try:
+                    fn(rs.standard_normal((m, n)), np.float32(_norm_q(g["Q"])[0]), out)
+                except Exception:
+                    pass
         return "ok"
     except Exception as e:  # outcome of poison calls is not judged
         return "raised:" + type(e).__name__
